@@ -238,3 +238,31 @@ func scFees(ps ParamSet, wrong bool, depth, blocks, msgs int) *Scenario {
 	sc.Setup = append(sc.Setup, sc.actCall(0), actE())
 	return sc
 }
+
+// ---------------------------------------------------------------------------------------------
+// S-MOD: contexts created by "another module" through the keeper API, with recording callbacks.
+
+var (
+	tMod1    = Template{Name: "mod1", Consumer: "C1", Service: "a", Providers: []string{"P1", "P2"}, Cap: 5, Timeout: 1, Repeated: true, Freq: 1, Total: 2, Module: ModOther, Threshold: 1}
+	tMod2    = Template{Name: "mod2", Consumer: "C1", Service: "a", Providers: []string{"P1", "P2"}, Cap: 5, Timeout: 2, Repeated: true, Freq: 2, Total: 2, Module: ModOther, Threshold: 2}
+	tModOne  = Template{Name: "modone", Consumer: "C1", Service: "a", Providers: []string{"P1", "P2"}, Cap: 5, Timeout: 1, Module: ModOther, Threshold: 2}
+	tModPoor = Template{Name: "modpoor", Consumer: "C2", Service: "a", Providers: []string{"P1", "P2"}, Cap: 5, Timeout: 1, Repeated: true, Freq: 1, Total: 2, Module: ModOther, Threshold: 1}
+	tModCap  = Template{Name: "modcap", Consumer: "C1", Service: "a", Providers: []string{"P1", "P2"}, Cap: 1, Timeout: 1, Repeated: true, Freq: 1, Total: 2, Module: ModOther, Threshold: 2}
+	tRep1    = Template{Name: "rep1", Consumer: "C1", Service: "a", Providers: []string{"P2"}, Cap: 5, Timeout: 1, Repeated: true, Freq: 1, Total: 1}
+	tF3      = Template{Name: "f3", Consumer: "C1", Service: "a", Providers: []string{"P2"}, Cap: 5, Timeout: 1, Repeated: true, Freq: 3, Total: -1}
+	tHuge    = Template{Name: "huge", Consumer: "C1", Service: "a", Providers: []string{"P2"}, Cap: 5, Timeout: 1, Repeated: true, Freq: 1 << 63, Total: -1}
+	tBig     = Template{Name: "bigf", Consumer: "C1", Service: "a", Providers: []string{"P2"}, Cap: 5, Timeout: 1, Repeated: true, Freq: 1 << 62, Total: -1}
+	tMax     = Template{Name: "maxf", Consumer: "C1", Service: "a", Providers: []string{"P2"}, Cap: 5, Timeout: 1, Repeated: true, Freq: 1<<63 - 1, Total: -1}
+)
+
+func scMod(ps ParamSet, tmpls []Template, o AlphaOpts, depth, blocks, msgs int) *Scenario {
+	sc := scLife(ps, tmpls, o, depth, blocks, msgs)
+	sc.Name = "S-MOD"
+	sc.Rig = RigConfig{CallbackModules: []string{ModOther}}
+	return sc
+}
+
+func withFunds(sc *Scenario, c1, c2 int64) *Scenario {
+	sc.Funds = lifeFunds(c1, c2)
+	return sc
+}
